@@ -28,9 +28,10 @@ func main() {
 			"Concurrent legs (-race, yields at failover/swap hooks): failover with one healthy member (no request may fail, <= len(members) member calls per request), cache (no upstream call by a request that started after a successful request of that ID returned), " +
 			"swap under load (no request fails, no member is called after or while being closed, swap/serve history is linearizable against a register: porcupine). " +
 			"Non-trivial: sequential history with >=1 fall-through/failover/fill/repair event, concurrent history with >=2 overlapping requests; distinct by (leg, shape, fault plan class, event kinds)",
-		Assumptions: []string{"reference model of router/cache/failover written from the documented policy (doc comments + README)", "concurrent interleavings are sampled"},
+		Assumptions:     []string{"reference model of router/cache/failover written from the documented policy (doc comments + README)", "concurrent interleavings are sampled"},
 		Cases:           cases,
 		Run:             run,
+		SpinIsViolation: true,
 		MinNonTrivial:   20,
 		RaceIsViolation: true,
 		CaseTimeout:     60 * time.Second,
